@@ -39,7 +39,7 @@ protocol and evidence are as designed in section 2. Deviations, all in the direc
 
 ADDITIONS = """### 10.5 What the seeded rounds changed in the checks
 
-One hundred and eighty changes from nine independent rounds (fresh sub-agents, property text only; each later round was told which *kinds* of change the earlier rounds had produced
+Two hundred changes from ten independent rounds (fresh sub-agents, property text only; each later round was told which *kinds* of change the earlier rounds had produced
 and asked for different ones) were confirmed and run. Rounds 1-3 (60 changes): 45 were detected by the quick tier as it stood, two more only by the thorough tier, 13 not
 at all. Round 4 (20 changes; column "before" in `seeded/*-agent4/meta.json: detected_before_strengthening`, measured by running the previous commit of `/verif` against each
 changed tree): 11 detected by the quick tier as it stood, one more only by the thorough tier (C02), 8 not at all (C01, C03, C04, C06, C07, C09, C10, C18).
@@ -151,9 +151,23 @@ Every miss pointed at a *class* of input the generator did not produce, and the 
   seed through its wrapper grid - looked at them). The reference now binds such a name to Python's own `<f>` (a refusal by the stand-in is an engine failure, never
   flagged), sum() over items of mixed kinds with list / tuple / str / number starts is generated, and ten such expressions joined the corner table. Both quiet on the
   unchanged tree at every seed tried.
+* **Round 10 (asked for: the least prominent clause of the statement; user-supplied objects with unusual dunder behaviour or callable shapes; clocks that do not advance;
+  a documented default versus the same value passed explicitly, positional versus keyword construction, non-default verbosity; changes in a shared lower layer; accounting
+  in almost the right unit).** As it stood the quick tier detected **7 of 20** (C01, C02, C04, C05, C12, C15, C17) - the round found the harness's own habits: every object
+  was built with `silent=True` and by keyword, every callback was a plain two-argument function. Strengthened the same day (all quiet on the unchanged tree, 3 seeds each):
+  C09 / C20 - a third of the generated objects are built with `silent=False`, the constructor default (output captured); C03 / C19 - about half of the `SimpleTool` and
+  `CascadeStage` objects are constructed positionally in the documented field order; C14 - the work callable is a function, a `functools.partial` or a callable object
+  (no `__name__`) by turns; C18 - the healing generator is passed as the function, behind a signature-hiding `(*args, **kwargs)` wrapper, as a partial or as a callable
+  object; C07 - the agents' replies carry a `source_agent` of their own (the other agent's name, a delegate's) in about half of the cases. Each of the seven seeds is now a
+  quick-tier detection. **Left open, deliberately:** C08-agent10 (a request with both an assessor block and an executor failure reported FAILURE under AND: the unchanged code
+  does exactly that under ASSESSOR_PRIORITY, the statement does not rank the two, and the check follows the loop's own report) and C06-agent10 (NaN confidence - outside the
+  finite grid the property quantifies over). **Still missed when the session ended (open gaps, in order of expected value):** C13-agent10 - digesters that *return* a truthy
+  non-mapping (the model knows raising digesters only); C16-agent10 - `execute(enforce_static_checks=False)` with an external input and a wire into one port (the flag is never
+  passed); C11-agent10 - strategy subsets without STRICT on clean JSON whose string values contain braces, against the clause "confidence is 1.0 only for strict";
+  C10-agent10 - a `ThreatSignature` subclass overriding `matches()` (the quantifier names substring and regex signatures only, so this one is arguably out of scope).
 * **One oracle bug found on the way** (no registered run was affected): C02 compared complex NaN results with `==`; now component-wise with NaN == NaN.
 
-After these changes 178 of the 180 seeded changes are detected by the quick tier, C14-agent6 by the thorough tier, and C12-agent8 by neither (see above) (table above; `python3 tools/run_mutants.py --seeded` re-runs them).
+After these changes 192 of the 200 seeded changes are detected by the quick tier, C14-agent6 by the thorough tier; C12-agent8, C08-agent10 and C06-agent10 are left open on purpose and four round-10 seeds (C10, C11, C13, C16) are open gaps (see above) (table above; `python3 tools/run_mutants.py --seeded` re-runs them).
 """
 
 
